@@ -182,4 +182,40 @@ theorem copySlices1_cover (perDim n : Nat) :
   rw [chunksAux_cover n _ (by omega) n 0 (by omega) (by omega), List.range_eq_range']
   rfl
 
+theorem transposeDense_involutive {α} (zero : α) (D : Dense α) (n m : Nat)
+    (hn : D.length = n) (hrows : ∀ row ∈ D, row.length = m) :
+    transposeDense zero (transposeDense zero D m) n = D := by
+  unfold transposeDense
+  apply List.ext_getElem
+  · simp [hn]
+  · intro i h1 h2
+    have hi : i < n := by simpa using h1
+    simp only [List.getElem_map, List.getElem_range, List.map_map]
+    apply List.ext_getElem
+    · simp [hrows D[i] (List.getElem_mem h2)]
+    · intro j h3 h4
+      have hj : j < m := by simpa using h3
+      simp only [List.getElem_map, List.getElem_range, Function.comp]
+      have : (List.map (fun row => row.getD j zero) D).getD i zero = D[i].getD j zero := by
+        simp [List.getD_eq_getElem?_getD, h2]
+      rw [this]
+      simp [List.getD_eq_getElem?_getD, h4]
+
+theorem toDense_rows_length {α} (zero : α) (M : Mat α) (nMajor nMinor : Nat) :
+    ∀ row ∈ toDense zero M nMajor nMinor, row.length = nMinor := by
+  intro row hrow
+  unfold toDense at hrow
+  rw [List.mem_map] at hrow
+  obtain ⟨i, _, rfl⟩ := hrow
+  exact scatter_length zero nMinor _ _
+
+theorem canonOut_indices_lt {α} (M : Mat α) (nMajor n : Nat)
+    (w : WFptr M.indptr nMajor M.indices.length) :
+    ∀ x ∈ (canonOut (entriesOf M) n).indices, x < nMajor := by
+  intro x hx
+  unfold canonOut at hx
+  simp only [List.mem_map] at hx
+  obtain ⟨e, he, rfl⟩ := hx
+  exact entriesOf_major_lt M nMajor w e (mem_bucketSpec _ _ e he)
+
 end CTM.Sparse
